@@ -377,6 +377,8 @@ class SStr(Sym):
         from . import models
         m = models.STR_METHODS.get(name)
         if m is None:
+            if name.startswith('_'):
+                raise AttributeError(name)
             raise HarnessError('str.%s is not modelled for symbolic strings' % name)
         return lambda *a, **k: m(self, *a, **k)
 
